@@ -40,6 +40,11 @@ META = dict(
                "as exact decimals and compared with the floats for texts of <= 15 digits; the oracle compares them with "
                "float(text) always. The separator ': ' is part of the well-formed grammar, but the parser's behaviour on "
                "other input (e.g. 'Mark:a') is not pinned: disagreements there are notes. Source ranges are not modelled. "
+               "Scope in time: the property is about what PARSING a line yields — the parts are demanded of the node as "
+               "the parser returns it (for any parser instance, whatever the process did before: other node types parsed "
+               "first, editor completions/hover/lint served in between). What later stages do with a node they own "
+               "(e.g. the interpreter rewriting a Watch limit into the tag's unit while the method runs) is not parsing "
+               "and is outside C18. "
                "CPython re is trusted differentially.",
     technique="Lean 4 proof (deterministic scanner equivalent to the regular expressions, list-splitting lemmas) + "
               "differential correspondence + independent parts oracle",
@@ -300,48 +305,135 @@ sys.path.insert(0, %r)
 import logging
 logging.disable(logging.CRITICAL)
 import props.C18 as m
+job = json.load(sys.stdin)
+done = m.run_actions(job.get("actions", []))
 out = []
-for i, c in enumerate(json.load(sys.stdin)):
+for i, c in enumerate(job["cases"]):
     f = m.oracle_line(c)
     if f is not None:
         out.append({"i": i, "key": f.key, "detail": f.detail})
-print("RESULT" + json.dumps(out))
+print("RESULT" + json.dumps({"failures": out, "actions_done": done}))
 """
 
 
-def fresh_process_failures(cases: list[dict]) -> list[dict]:
-    """The parts oracle on `cases`, parsed in this order by a parser in a FRESH interpreter: what a line decomposes
-    into must not depend on which node types the process has parsed before (class-level caches)."""
+def run_actions(actions: list[dict]) -> dict:
+    """(in the child process) what else happens in a process that parses: editor requests served by
+    openpectus.lsp.lsp_analysis (completions / hover at a cursor position, lint of a document). They share the
+    parser's class-level tables; what they answer is not C18's business (their exceptions are ignored), only
+    that the parser decomposes lines afterwards as before."""
+    done = {"completions": 0, "hover": 0, "lint": 0, "raised": 0}
+    if not actions:
+        return done
+    from pylsp.workspace import Document, Workspace
+    from openpectus.lsp import lsp_analysis
+    from openpectus.lsp.model import Position
+    from openpectus.protocol.models import CommandDefinition, TagDefinition, UodDefinition
+    uod_info = UodDefinition(
+        commands=[CommandDefinition(name="Uod", validator=None, docstring="")],
+        system_commands=[CommandDefinition(name=n, validator=None, docstring="") for n in
+                         ("Watch", "Alarm", "Simulate", "Mark", "Block", "End block", "Macro", "Call macro", "Wait")],
+        tags=[TagDefinition(name="X", unit=None), TagDefinition(name="Run Time", unit="s"),
+              TagDefinition(name="Flow", unit="L/h"), TagDefinition(name="Level", unit="%")])
+    setattr(lsp_analysis, "fetch_uod_info", lambda _: uod_info)
+    setattr(lsp_analysis, "fetch_simulated_tags", lambda _: list())
+    setattr(lsp_analysis, "fetch_process_value", lambda *_: None)
+    lsp_analysis.create_analysis_input.cache_clear()
+    workspace = Workspace(root_uri="", endpoint=None, config=None)
+    for a in actions:
+        doc = Document(uri="file://workspace/uri", workspace=workspace, source=a["source"])
+        try:
+            if a["kind"] == "lint":
+                lsp_analysis.lint(doc, "eng")
+            else:
+                pos = Position(line=a.get("line", 0), character=a["character"])
+                if a["kind"] == "completions":
+                    lsp_analysis.completions(doc, pos, ignored_names=None, engine_id="eng")
+                else:
+                    lsp_analysis.hover(doc, pos, "eng")
+            done[a["kind"]] += 1
+        except Exception:
+            done["raised"] += 1
+    return done
+
+
+def fresh_process(cases: list[dict], actions: list[dict] | None = None) -> dict:
+    """The parts oracle on `cases`, parsed in this order by a parser in a FRESH interpreter, after `actions`:
+    what a line decomposes into must not depend on what the process did before (class-level tables, caches)."""
     env = dict(os.environ, VERIF_SHARED_LEAN="1")   # the child only parses; it needs no Lean workspace
     p = subprocess.run([sys.executable, "-c", _FRESH % str(Path(__file__).resolve().parent.parent)],
-                       input=json.dumps(cases), capture_output=True, text=True, env=env, timeout=600)
+                       input=json.dumps({"cases": cases, "actions": actions or []}), capture_output=True, text=True,
+                       env=env, timeout=900)
     for ln in p.stdout.splitlines():
         if ln.startswith("RESULT"):
             return json.loads(ln[6:])
     raise Infra(f"fresh-process oracle did not answer: rc={p.returncode} {(p.stdout + p.stderr)[-400:]}")
 
 
+def fresh_process_failures(cases: list[dict], actions: list[dict] | None = None) -> list[dict]:
+    return fresh_process(cases, actions)["failures"]
+
+
 def order_streams(ctx: Check, wf: list[dict]) -> None:
-    def cl(name: str, tag: str, op: str, val: str) -> dict:
-        text = f"{tag} {op} {val}"
-        return {"line": f"{name}: {text}", "indent": 0, "thr": None, "name": name, "arg": text, "comment": None,
-                "cond": {"tag": tag, "op": op, "value": val, "unit": None, "text": text}}
+    def cl(name: str, tag: str, op: str, val: str, unit: str | None = None, parser: str | None = None) -> dict:
+        text = f"{tag} {op} {val}" + ("" if unit is None else " " + unit)
+        c = {"line": f"{name}: {text}", "indent": 0, "thr": None, "name": name, "arg": text, "comment": None,
+             "cond": {"tag": tag, "op": op, "value": val, "unit": unit, "text": text}}
+        if parser:
+            c["parser"] = parser
+        return c
     cond_lines = [c for c in wf if c.get("cond") and (c["cond"]["unit"] is None or set(c["cond"]["unit"]) <= UNIT_CLASS)]
     sim = [c for c in cond_lines if c["name"] == "Simulate"]
     wa = [c for c in cond_lines if c["name"] != "Simulate"]
-    orders = {
-        "simulate-first": [cl("Simulate", "X", "=", "5")] + [cl(n, "X", op, "5") for n in ("Watch", "Alarm") for op in COND_OPS]
-        + wa[: ctx.n(150, 3000)],
-        "watch-first": [cl("Watch", "X", ">=", "5")] + [cl("Simulate", "X", "=", "5")] + sim[: ctx.n(100, 2000)]
-        + wa[: ctx.n(50, 500)],
+    # every operator, with and without unit, through the method parser and the inject parser
+    all_ops = [cl(n, "X", op, "5", u, ps) for n in ("Watch", "Alarm") for op in COND_OPS for u in (None, "s")
+               for ps in (None, "inject")] + [cl("Simulate", "Run Time", "=", "7", u, ps) for u in (None, "s")
+                                              for ps in (None, "inject")]
+    # editor sessions: a request at every cursor position of lines with every operator
+    edit_lines = [f"{n}: Run Time {op} 5{u}" for n in ("Watch", "Alarm") for op in COND_OPS for u in ("", " s", " min")] + \
+        ["Simulate: Run Time = 7 s", "Watch: X", "Watch: ", "Alarm: Flow <", "    Mark: a", "Watch: Level >= 20 %"]
+    if ctx.tier == "quick":
+        edit_lines = [ln for ln in edit_lines if " min" not in ln]
+    doc = "\n".join(["Block: A", "    Watch: Run Time <= 5 s", "        Mark: a", "    Alarm: Flow != 2 L/h",
+                     "        Mark: b", "    Simulate: X = 3", "    End block", ""])
+    completions = [{"kind": "completions", "source": ln, "character": k} for ln in edit_lines for k in range(len(ln) + 1)]
+    hovers = [{"kind": "hover", "source": ln, "character": k} for ln in edit_lines for k in range(len(ln) + 1)] + \
+        [{"kind": "hover", "source": doc, "line": i, "character": k} for i, ln in enumerate(doc.split("\n"))
+         for k in range(0, len(ln) + 1, 2)]
+    lints = [{"kind": "lint", "source": src} for src in [doc] + edit_lines]
+    scenarios = {
+        "simulate-first": ([cl("Simulate", "X", "=", "5")] + all_ops + wa[: ctx.n(150, 3000)], []),
+        "watch-first": ([cl("Watch", "X", ">=", "5"), cl("Simulate", "X", "=", "5")] + sim[: ctx.n(100, 2000)]
+                        + wa[: ctx.n(50, 500)], []),
+        "after-lsp-completions": (all_ops + wa[: ctx.n(60, 1000)] + sim[: ctx.n(20, 300)], completions),
+        "after-lsp-hover-lint": (all_ops + wa[: ctx.n(60, 1000)] + sim[: ctx.n(20, 300)], hovers + lints),
     }
-    for name, cases in orders.items():
+    ctx.extra["fresh_process_scenarios"] = {}
+    for name, (cases, actions) in scenarios.items():
         ctx.evaluations += len(cases)
         ctx.count("fresh-process:" + name, len(cases))
-        for f in fresh_process_failures(cases)[:20]:
-            ctx.fail(Failure(f["key"] + ":in-fresh-process-after-other-node-type", {"fresh_process": [cases[0], cases[f["i"]]]},
-                             f"parsed in a fresh process after {cases[0]['line']!r}: {f['detail']}"))
-    ctx.extra["fresh_process_orders"] = {k: len(v) for k, v in orders.items()}
+        res = fresh_process(cases, actions)
+        ctx.extra["fresh_process_scenarios"][name] = {"lines_checked": len(cases), "requests": res["actions_done"]}
+        if actions and sum(res["actions_done"][k] for k in ("completions", "hover", "lint")) == 0:
+            raise Infra(f"scenario {name}: no editor request could be served — the interleaving was not exercised")
+        what = "other-node-type" if not actions else "editor-requests"
+        for f in res["failures"][:20]:
+            case = {"fresh_process": [cases[0], cases[f["i"]]]} if not actions else \
+                {"fresh_process": [cases[f["i"]]], "actions": _shrink_actions(cases[f["i"]], actions)}
+            ctx.fail(Failure(f["key"] + f":in-fresh-process-after-{what}", case,
+                             f"scenario {name}: {f['detail']}"))
+
+
+def _shrink_actions(case: dict, actions: list[dict]) -> list[dict]:
+    """smallest prefix-free subset found quickly: single requests after which `case` already fails"""
+    for a in actions:
+        try:
+            if fresh_process_failures([case], [a]):
+                return [a]
+        except Infra:
+            break
+        if a is actions[min(len(actions) - 1, 400)]:
+            break
+    return actions
 
 
 def run(ctx: Check) -> int:
@@ -361,9 +453,10 @@ def run(ctx: Check) -> int:
                 "well-formed (number / number ws unit / text: deciding, with oracle) and ill-formed (agreement noted only). "
                 "Typed results (threshold, tag_value_numeric) are observed as exact fractions and must equal the number "
                 "written in the text. Near-miss / ill-formed input (incl. conditions that repeat their operator) and raw regex groups are compared "
-                "for the record only, but an exception of the parser on any input is a failing input. Two sub-streams run the "
-                "parts oracle in a fresh interpreter with a Simulate line / a Watch line parsed first (no dependence on "
-                "what the process parsed before). Non-trivial = line has at "
+                "for the record only, but an exception of the parser on any input is a failing input. Four scenarios run the parts oracle (every operator, method "
+                "parser and inject parser) in a fresh interpreter: after a Simulate line / a Watch line parsed first, after "
+                "LSP completions at every cursor position of lines with every operator, after LSP hover at every position "
+                "and lint (no dependence on what the process did before). Non-trivial = line has at "
                 "least two optional parts, or the condition has a unit or a multi-digit number.")
 
     corpus = load_corpus("C18")
@@ -478,7 +571,10 @@ def replay(obj) -> int:
             case = d.get("case", {})
     if "fresh_process" in case:
         print("parsed in a fresh process, in this order:", [c["line"] for c in case["fresh_process"]])
-        fs = fresh_process_failures(case["fresh_process"])
+        if case.get("actions"):
+            print("after editor requests:", [(a["kind"], a["source"], a.get("character")) for a in case["actions"][:5]],
+                  "…" if len(case["actions"]) > 5 else "")
+        fs = fresh_process_failures(case["fresh_process"], case.get("actions"))
         for f in fs:
             print("oracle:", f["key"], f["detail"])
         print("oracle: ok" if not fs else "")
